@@ -172,14 +172,16 @@ def explore(ex, depth, uses, batch=40000):
 
 
 def main(tier):
-    if tier == 'replay':
+    if tier in ('replay', '--replay'):
         res = replay_main(sys.argv[2], make_harness)
         rec = json.load(open(sys.argv[2]))
         ex = Explorer('C13', 'quick', None, 'desc', 'c13.py')
-        ex.report = lambda key, line, r, what, *a, **k: print('  MODEL REJECTS [%s]: %s' % (key, what))
-        ex.crash = lambda line, r, prefix, *a: print('  MODEL REJECTS [%s|%s]: sanitizer report inside wasi.c' % (prefix, crash_class(r)[0]))
+        rejected = []
+        ex.report = lambda key, line, r, what, *a, **k: rejected.append(print('  MODEL REJECTS [%s]: %s' % (key, what)))
+        ex.crash = lambda line, r, prefix, *a: rejected.append(print('  MODEL REJECTS [%s|%s]: sanitizer report inside wasi.c' % (prefix, crash_class(r)[0])))
         judge(ex, rec['history'], res)
-        return 0
+        print('REPLAY: %s' % ('the table model rejects this history' if rejected else 'history is accepted by the table model on the current tree'))
+        return 1 if rejected else 0
     h = make_harness()
     ex = Explorer('C13', tier, h, 'desc', 'c13.py')
     ex.deadline = time.time() + (100 if tier == 'quick' else 540)
@@ -192,7 +194,7 @@ def main(tier):
             unimpl.append(s)
         else:
             uses.append(s)
-    depth = explore(ex, 4 if tier == 'quick' else 5, uses)
+    depth = explore(ex, 4 if tier == 'quick' else 6, uses)
     rule = ('breadth-first search over histories of path_open(file|directory), fd_close(x) and one of %d descriptor-taking calls on x, '
             'x in {0,1,2,pre-open,every issued number,next unissued,1000,2^32-1}, both name spaces; one history per distinct table state '
             '(number, kind, live, directory stream open) is extended; distinct_nontrivial = distinct (call, errno) pairs observed' % len(uses))
